@@ -241,7 +241,7 @@ def flowInput (ts : List String) : Option FlowCase :=
     if m == "eof" then some ⟨m, ⟨pre, []⟩⟩
     else if m == "err" || m == "close" then some ⟨m, ⟨pre ++ [{ data := [], err := some .fatal }], []⟩⟩
     else if m == "werr" then
-      some ⟨m, ⟨List.replicate k d, List.replicate (k - 1) ⟨c, false⟩ ++ [⟨0, true⟩]⟩⟩
+      some ⟨m, ⟨List.replicate k d, List.replicate (k - 1) ⟨c, false, false⟩ ++ [⟨0, true, false⟩]⟩⟩
     else if m == "ctx" then
       some ⟨m, ⟨pre ++ [{ d with cancelled := true }] ++
         List.replicate (Gen.cloudconst.ContextCheckInterval + 5) d, []⟩⟩
